@@ -151,7 +151,7 @@ func checkC02(w *Worker) {
 		x.Obs(r.Key())
 		x.Sample(map[string]interface{}{"cmd": c.shell(), "stdout": r.Stdout})
 		rep := map[string]interface{}{"cmd": c.shell(), "book": book.String(), "log": lg.String(), "observed": r.String()}
-		if r.Failed && r.Panic == "" && rd.Name == "group-food-without-single-element" {
+		if r.Failed && r.Panic == "" && (rd.Name == "group-food-without-single-element" || strings.Contains(rd.Name, "--csv") || strings.Contains(rd.Name, " -g")) {
 			x.Case("skip: the lone flag is rejected", false)
 			return
 		}
@@ -279,6 +279,18 @@ func checkC02(w *Worker) {
 			c02Specials = append(c02Specials, sc)
 		}
 	}
+	// flags that qualify --single-element and select nothing on their own, alone and together, under each template
+	inert := [][]string{{"--csv"}, {"--csv", "-g"}, {"--group-food", "--csv"}}
+	w.Explore("inert-flags", ExploreOpts{ShardDepth: 2}, func(x *Exec) {
+		ri := x.Choose(3, "input:renderer")
+		fl := inert[x.Choose(len(inert), "config:inert-flags")]
+		sc := c02Specials[x.Choose(len(c02Specials), "input:scenario")]
+		saved := regRenderers[ri]
+		regRenderers[ri].Args = append(append([]string{}, saved.Args...), fl...)
+		regRenderers[ri].Name = saved.Name + " " + strings.Join(fl, " ")
+		defer func() { regRenderers[ri] = saved }()
+		verify(x, 101, ri, sc.Book, sc.Log)
+	})
 	w.Explore("special-scenarios", ExploreOpts{ShardDepth: 2}, func(x *Exec) {
 		ri := x.Choose(nRend, "input:renderer")
 		sc := c02Specials[x.Choose(len(c02Specials), "input:scenario")]
